@@ -16,6 +16,12 @@ def ownRoutes : Bp → List Nat
   | .cons (.route r) rest => r :: ownRoutes rest
   | .cons _ rest => ownRoutes rest
 
+/-- middlewares registered directly against a blueprint, in order -/
+def ownMwIds : Bp → List Nat
+  | .nil => []
+  | .cons (.mw m) rest => m :: ownMwIds rest
+  | .cons _ rest => ownMwIds rest
+
 /-- the blueprint's own latest registration for a type -/
 def ownLast (b : Bp) (ty : Nat) : Option Ctor := ((ownCtors b).filter (fun c => c.ty == ty)).getLast?
 
@@ -30,6 +36,21 @@ mutual
     | _ => []
 end
 
+mutual
+  /-- the same for the middlewares registered inside the blueprints nested in `b` -/
+  def nestedDesigM (env : Option Ctor) (ty : Nat) : Bp → List (Nat × Option Ctor)
+    | .nil => []
+    | .cons i rest => nestedItemM env ty i ++ nestedDesigM env ty rest
+  def nestedItemM (env : Option Ctor) (ty : Nat) : Item → List (Nat × Option Ctor)
+    | .nest b =>
+      (ownMwIds b).map (fun r => (r, (ownLast b ty).or env)) ++ nestedDesigM ((ownLast b ty).or env) ty b
+    | _ => []
+end
+
+/-- the rule for middlewares: a middleware sees what the blueprint it is registered against sees -/
+def designatedM (b : Bp) (ty : Nat) : List (Nat × Option Ctor) :=
+  (ownMwIds b).map (fun r => (r, ownLast b ty)) ++ nestedDesigM (ownLast b ty) ty b
+
 /-- **the documented rule**, read off the blueprint tree: a route gets, for a type, the latest registration of the
     nearest enclosing blueprint (its own included) that registers the type at all. -/
 def designated (b : Bp) (ty : Nat) : List (Nat × Option Ctor) :=
@@ -41,22 +62,23 @@ theorem walkOwn_delta : ∀ (b : Bp) (cur : Nat) (st : St), ∃ (es rs ms : List
     (walkOwn b cur st).edges = st.edges ++ es ∧ (∀ e ∈ es, e.1 = cur ∧ st.next ≤ e.2) ∧
     (walkOwn b cur st).routes = st.routes ++ rs ∧ rs.map (·.1) = ownRoutes b ∧ (∀ r ∈ rs, (cur, r.2) ∈ es) ∧
     (walkOwn b cur st).mws = st.mws ++ ms ∧ (∀ m ∈ ms, (cur, m.2) ∈ es) ∧
-    (walkOwn b cur st).nested = st.nested := by
+    (walkOwn b cur st).nested = st.nested ∧ ms.map (·.1) = ownMwIds b := by
   intro b
   induction b using Bp.rec (motive_1 := fun _ => True) with
-  | nil => intro cur st; exact ⟨[], [], [], by simp [walkOwn, ownCtors, ownRoutes]⟩
+  | nil => intro cur st; exact ⟨[], [], [], by simp [walkOwn, ownCtors, ownRoutes, ownMwIds]⟩
   | cons i rest _ ih =>
     intro cur st
     cases i with
     | ctor c =>
-      obtain ⟨es, rs, ms, h1, h2, h3, h4, h5, h6, h7, h8, h9⟩ := ih cur { st with regs := st.regs ++ [(cur, c)] }
-      refine ⟨es, rs, ms, ?_, h2, h3, h4, ?_, h6, h7, h8, h9⟩
+      obtain ⟨es, rs, ms, h1, h2, h3, h4, h5, h6, h7, h8, h9, h10⟩ := ih cur { st with regs := st.regs ++ [(cur, c)] }
+      refine ⟨es, rs, ms, ?_, h2, h3, h4, ?_, h6, h7, h8, h9, ?_⟩
       · simp only [walkOwn, ownCtors, List.map_cons]; rw [h1]; simp
       · simp only [ownRoutes]; exact h5
+      · simp only [ownMwIds]; exact h10
     | mw m =>
-      obtain ⟨es, rs, ms, h1, h2, h3, h4, h5, h6, h7, h8, h9⟩ :=
+      obtain ⟨es, rs, ms, h1, h2, h3, h4, h5, h6, h7, h8, h9, h10⟩ :=
         ih cur { st.addScope cur with mws := st.mws ++ [(m, st.next)] }
-      refine ⟨(cur, st.next) :: es, rs, (m, st.next) :: ms, ?_, ?_, ?_, ?_, ?_, ?_, ?_, ?_, ?_⟩
+      refine ⟨(cur, st.next) :: es, rs, (m, st.next) :: ms, ?_, ?_, ?_, ?_, ?_, ?_, ?_, ?_, ?_, ?_⟩
       · simp only [walkOwn, ownCtors]; rw [h1]; rfl
       · simp only [walkOwn]; rw [h2]; simp [St.addScope]
       · intro e he
@@ -74,10 +96,11 @@ theorem walkOwn_delta : ∀ (b : Bp) (cur : Nat) (st : St), ∃ (es rs ms : List
         · simp
         · exact List.mem_cons_of_mem _ (h8 x hx)
       · simp only [walkOwn]; rw [h9]; rfl
+      · simp only [ownMwIds, List.map_cons]; rw [h10]
     | route r =>
-      obtain ⟨es, rs, ms, h1, h2, h3, h4, h5, h6, h7, h8, h9⟩ :=
+      obtain ⟨es, rs, ms, h1, h2, h3, h4, h5, h6, h7, h8, h9, h10⟩ :=
         ih cur { st.addScope cur with routes := st.routes ++ [(r, st.next)] }
-      refine ⟨(cur, st.next) :: es, (r, st.next) :: rs, ms, ?_, ?_, ?_, ?_, ?_, ?_, ?_, ?_, ?_⟩
+      refine ⟨(cur, st.next) :: es, (r, st.next) :: rs, ms, ?_, ?_, ?_, ?_, ?_, ?_, ?_, ?_, ?_, ?_⟩
       · simp only [walkOwn, ownCtors]; rw [h1]; rfl
       · simp only [walkOwn]; rw [h2]; simp [St.addScope]
       · intro e he
@@ -95,12 +118,13 @@ theorem walkOwn_delta : ∀ (b : Bp) (cur : Nat) (st : St), ∃ (es rs ms : List
       · simp only [walkOwn]; rw [h7]; rfl
       · intro x hx; exact List.mem_cons_of_mem _ (h8 x hx)
       · simp only [walkOwn]; rw [h9]; rfl
+      · simp only [ownMwIds]; exact h10
     | nest b' =>
       obtain ⟨es, rs, ms, h⟩ := ih cur st
-      exact ⟨es, rs, ms, by simpa [walkOwn, ownCtors, ownRoutes] using h⟩
+      exact ⟨es, rs, ms, by simpa [walkOwn, ownCtors, ownRoutes, ownMwIds] using h⟩
     | other =>
       obtain ⟨es, rs, ms, h⟩ := ih cur st
-      exact ⟨es, rs, ms, by simpa [walkOwn, ownCtors, ownRoutes] using h⟩
+      exact ⟨es, rs, ms, by simpa [walkOwn, ownCtors, ownRoutes, ownMwIds] using h⟩
   | ctor c => trivial
   | mw m => trivial
   | route r => trivial
@@ -114,8 +138,9 @@ structure Ext (st fin : St) : Prop where
   regs : ∃ re, fin.regs = st.regs ++ re ∧ ∀ r ∈ re, st.next ≤ r.1
   edges : ∃ ee, fin.edges = st.edges ++ ee ∧ ∀ e ∈ ee, st.next ≤ e.2
   routes : ∃ rr, fin.routes = st.routes ++ rr
+  mws : ∃ mm, fin.mws = st.mws ++ mm
 
-theorem Ext.refl (st : St) : Ext st st := ⟨Nat.le_refl _, ⟨[], by simp⟩, ⟨[], by simp⟩, ⟨[], by simp⟩⟩
+theorem Ext.refl (st : St) : Ext st st := ⟨Nat.le_refl _, ⟨[], by simp⟩, ⟨[], by simp⟩, ⟨[], by simp⟩, ⟨[], by simp⟩⟩
 
 theorem Ext.trans {a b c : St} (h1 : Ext a b) (h2 : Ext b c) : Ext a c := by
   obtain ⟨r1, hr1, hr1'⟩ := h1.regs
@@ -124,8 +149,11 @@ theorem Ext.trans {a b c : St} (h1 : Ext a b) (h2 : Ext b c) : Ext a c := by
   obtain ⟨e2, he2, he2'⟩ := h2.edges
   obtain ⟨q1, hq1⟩ := h1.routes
   obtain ⟨q2, hq2⟩ := h2.routes
+  obtain ⟨m1, hm1⟩ := h1.mws
+  obtain ⟨m2, hm2⟩ := h2.mws
   refine ⟨Nat.le_trans h1.next h2.next, ⟨r1 ++ r2, by rw [hr2, hr1, List.append_assoc], ?_⟩,
-    ⟨e1 ++ e2, by rw [he2, he1, List.append_assoc], ?_⟩, ⟨q1 ++ q2, by rw [hq2, hq1, List.append_assoc]⟩⟩
+    ⟨e1 ++ e2, by rw [he2, he1, List.append_assoc], ?_⟩, ⟨q1 ++ q2, by rw [hq2, hq1, List.append_assoc]⟩,
+    ⟨m1 ++ m2, by rw [hm2, hm1, List.append_assoc]⟩⟩
   · intro r hr
     simp only [List.mem_append] at hr
     rcases hr with hr | hr
@@ -292,13 +320,15 @@ theorem nest_walk (b : Bp) (cur : Nat) (st : St) (hst : st.Wf) (hr : RegsLt st) 
     let st2 := walkOwn b st.next { st.addScope cur with nested := st.nested ++ [(st.next, cur)] }
     st2.Wf ∧ RegsLt st2 ∧ st.next < st2.next ∧ Ext st st2 ∧
     lookup st2.regs st.next ty = ownLast b ty ∧ (build st2).parents st.next = [cur] ∧
-    ∃ rs, st2.routes = st.routes ++ rs ∧ rs.map (·.1) = ownRoutes b ∧
-      ∀ r ∈ rs, r.2 < st2.next ∧ (build st2).parents r.2 = [st.next] ∧ lookup st2.regs r.2 ty = none := by
+    (∃ rs, st2.routes = st.routes ++ rs ∧ rs.map (·.1) = ownRoutes b ∧
+      ∀ r ∈ rs, r.2 < st2.next ∧ (build st2).parents r.2 = [st.next] ∧ lookup st2.regs r.2 ty = none) ∧
+    (∃ ms, st2.mws = st.mws ++ ms ∧ ms.map (·.1) = ownMwIds b ∧
+      ∀ r ∈ ms, r.2 < st2.next ∧ (build st2).parents r.2 = [st.next] ∧ lookup st2.regs r.2 ty = none) := by
   intro st2
   have h0 : ({ st.addScope cur with nested := st.nested ++ [(st.next, cur)] } : St).Wf :=
     wf_nested _ _ (addScope_wf st cur hst hc)
   have hw := walkOwn_wf b st.next _ h0 (by simp [St.addScope])
-  obtain ⟨es, rs, ms, h1, h2, h3, h4, h5, h6, h7, h8, h9⟩ :=
+  obtain ⟨es, rs, ms, h1, h2, h3, h4, h5, h6, h7, h8, h9, h10⟩ :=
     walkOwn_delta b st.next { st.addScope cur with nested := st.nested ++ [(st.next, cur)] }
   have hnext : st.next + 1 ≤ st2.next := hw.2
   have hnone : st.regs.filter (fun r => r.1 == st.next) = [] := by
@@ -310,7 +340,35 @@ theorem nest_walk (b : Bp) (cur : Nat) (st : St) (hst : st.Wf) (hr : RegsLt st) 
   have hedge : (cur, st.next) ∈ st2.edges := by
     show (cur, st.next) ∈ (walkOwn b st.next _).edges
     rw [h2]; simp [St.addScope]
-  refine ⟨hw.1, ?_, by omega, ?_, ?_, parents_of_edge hw.1 hedge, rs, h4, h5, ?_⟩
+  have leaf : ∀ k, (st.next, k) ∈ es →
+      k < st2.next ∧ (build st2).parents k = [st.next] ∧ lookup st2.regs k ty = none := by
+    intro k he
+    have hge := (h3 _ he).2
+    simp only [St.addScope] at hge
+    have hmem : (st.next, k) ∈ st2.edges := by
+      show _ ∈ (walkOwn b st.next _).edges
+      rw [h2]; exact List.mem_append_right _ he
+    refine ⟨(hw.1.lt _ hmem).2, parents_of_edge hw.1 hmem, ?_⟩
+    apply lookup_of_no_regs
+    show (walkOwn b st.next _).regs.filter _ = []
+    rw [h1, List.filter_append]
+    have a1 : st.regs.filter (fun x => x.1 == k) = [] := by
+      rw [List.filter_eq_nil_iff]
+      intro x hx hc'
+      simp only [beq_iff_eq] at hc'
+      have := hr x hx
+      omega
+    have a2 : ((ownCtors b).map (fun c => (st.next, c))).filter (fun x => x.1 == k) = [] := by
+      rw [List.filter_eq_nil_iff]
+      intro x hx hc'
+      simp only [List.mem_map] at hx
+      obtain ⟨c, _, rfl⟩ := hx
+      simp only [beq_iff_eq] at hc'
+      omega
+    rw [show ({ st.addScope cur with nested := st.nested ++ [(st.next, cur)] } : St).regs = st.regs from rfl, a1, a2]
+    rfl
+  refine ⟨hw.1, ?_, by omega, ?_, ?_, parents_of_edge hw.1 hedge, ⟨rs, h4, h5, fun r hr' => leaf r.2 (h6 r hr')⟩,
+    ⟨ms, h7, h10, fun r hr' => leaf r.2 (h8 r hr')⟩⟩
   · intro r hr'
     have hr'' : r ∈ (walkOwn b st.next _).regs := hr'
     rw [h1] at hr''
@@ -318,7 +376,7 @@ theorem nest_walk (b : Bp) (cur : Nat) (st : St) (hst : st.Wf) (hr : RegsLt st) 
     rcases hr'' with hr'' | ⟨c, _, rfl⟩
     · have := hr r hr''; omega
     · show st.next < st2.next; omega
-  · refine ⟨by omega, ⟨_, h1, ?_⟩, ⟨(cur, st.next) :: es, ?_, ?_⟩, ⟨rs, h4⟩⟩
+  · refine ⟨by omega, ⟨_, h1, ?_⟩, ⟨(cur, st.next) :: es, ?_, ?_⟩, ⟨rs, h4⟩, ⟨ms, h7⟩⟩
     · intro r hr'
       simp only [List.mem_map] at hr'
       obtain ⟨c, _, rfl⟩ := hr'
@@ -333,33 +391,6 @@ theorem nest_walk (b : Bp) (cur : Nat) (st : St) (hst : st.Wf) (hr : RegsLt st) 
   · show lookup (walkOwn b st.next _).regs st.next ty = ownLast b ty
     rw [h1]
     exact lookup_own st.regs st.next (ownCtors b) ty hnone
-  · intro r hr'
-    have he := h6 r hr'
-    have hge := (h3 _ he).2
-    simp only [St.addScope] at hge
-    have hmem : (st.next, r.2) ∈ st2.edges := by
-      show _ ∈ (walkOwn b st.next _).edges
-      rw [h2]; exact List.mem_append_right _ he
-    refine ⟨(hw.1.lt _ hmem).2, parents_of_edge hw.1 hmem, ?_⟩
-    apply lookup_of_no_regs
-    show (walkOwn b st.next _).regs.filter _ = []
-    rw [h1, List.filter_append]
-    have a1 : st.regs.filter (fun x => x.1 == r.2) = [] := by
-      rw [List.filter_eq_nil_iff]
-      intro x hx hc'
-      simp only [beq_iff_eq] at hc'
-      have := hr x hx
-      omega
-    have a2 : ((ownCtors b).map (fun c => (st.next, c))).filter (fun x => x.1 == r.2) = [] := by
-      rw [List.filter_eq_nil_iff]
-      intro x hx hc'
-      simp only [List.mem_map] at hx
-      obtain ⟨c, _, rfl⟩ := hx
-      simp only [beq_iff_eq] at hc'
-      omega
-    rw [show ({ st.addScope cur with nested := st.nested ++ [(st.next, cur)] } : St).regs = st.regs from rfl, a1, a2]
-    rfl
-
 
 theorem getF_parent (st : St) (hst : st.Wf) (s p ty : Nat) (hs : s < st.next)
     (hp : (build st).parents s = [p]) (hnone : lookup st.regs s ty = none) : getF st s ty = getF st p ty := by
@@ -450,7 +481,7 @@ theorem kids_designated (ty : Nat) : ∀ (b : Bp) (cur : Nat) (st fin : St) (env
   | nest b ih =>
     rename_i cur st fin env h hr hc hfin hx henv rs hrs rk hrk
     simp only [kid] at hrs hx
-    obtain ⟨hw2, hr2, hlt, hx2, hlook, hpar, rs2, hrs2, hmap2, hroutes2⟩ := nest_walk b cur st h hr hc ty
+    obtain ⟨hw2, hr2, hlt, hx2, hlook, hpar, ⟨rs2, hrs2, hmap2, hroutes2⟩, _⟩ := nest_walk b cur st h hr hc ty
     -- names for the two intermediate states
     generalize hst2 : walkOwn b st.next { st.addScope cur with nested := st.nested ++ [(st.next, cur)] } = st2 at *
     have h3 := kids_facts b st.next st2 hw2 hr2 hlt
@@ -475,6 +506,101 @@ theorem kids_designated (ty : Nat) : ∀ (b : Bp) (cur : Nat) (st fin : St) (env
         simp
     rw [hsplit] at hrk
     simp only [nestedItem, List.mem_append] at hrk ⊢
+    rcases hrk with hrk | hrk
+    · left
+      obtain ⟨hk1, hk2, hk3⟩ := hroutes2 rk hrk
+      have : getF fin rk.2 ty = (ownLast b ty).or env := by
+        rw [getF_frozen hx2fin hw2 hfin rk.2 ty hk1, getF_parent st2 hw2 rk.2 st.next ty hk1 hk2 hk3,
+          ← getF_frozen hx2fin hw2 hfin st.next ty hlt, hsc]
+      rw [this]
+      refine List.mem_map.mpr ⟨rk.1, ?_, rfl⟩
+      rw [← hmap2]
+      exact List.mem_map.mpr ⟨rk, hrk, rfl⟩
+    · right
+      exact ih st.next st2 fin _ hw2 hr2 hlt hfin hx hsc rs3 hrs3 rk hrk
+
+
+/-- the same for middlewares: inside the blueprints nested in `b`
+    every middleware resolves a type to what the rule designates, given what `b`'s own scope resolves it to. -/
+theorem kids_designated_m (ty : Nat) : ∀ (b : Bp) (cur : Nat) (st fin : St) (env : Option Ctor),
+    st.Wf → RegsLt st → cur < st.next → fin.Wf → Ext (kids b cur st) fin → getF fin cur ty = env →
+    ∀ rs, (kids b cur st).mws = st.mws ++ rs → ∀ rk ∈ rs, (rk.1, getF fin rk.2 ty) ∈ nestedDesigM env ty b := by
+  intro b
+  induction b using Bp.rec (motive_1 := fun i => ∀ (cur : Nat) (st fin : St) (env : Option Ctor),
+      st.Wf → RegsLt st → cur < st.next → fin.Wf → Ext (kid i cur st) fin → getF fin cur ty = env →
+      ∀ rs, (kid i cur st).mws = st.mws ++ rs → ∀ rk ∈ rs, (rk.1, getF fin rk.2 ty) ∈ nestedItemM env ty i) with
+  | nil =>
+    intro cur st fin env _ _ _ _ _ _ rs hrs rk hrk
+    simp only [kids] at hrs
+    have : rs = [] := by simpa using hrs
+    rw [this] at hrk; cases hrk
+  | cons i rest ihi ihr =>
+    intro cur st fin env h hr hc hfin hx henv rs hrs rk hrk
+    simp only [kids] at hrs hx
+    have hA := kids_facts rest cur st h hr hc
+    have hwA := kids_wf rest cur st h hc
+    have hB := kids_facts (.cons i .nil) cur (kids rest cur st) hwA.1 hA.1 (by omega)
+    simp only [kids] at hB
+    obtain ⟨r1, hr1⟩ := hA.2.mws
+    obtain ⟨r2, hr2⟩ := hB.2.mws
+    have hsplit : rs = r1 ++ r2 := by
+      rw [hr2, hr1, List.append_assoc] at hrs
+      exact (List.append_cancel_left hrs).symm
+    rw [hsplit] at hrk
+    simp only [nestedDesigM, List.mem_append] at hrk ⊢
+    rcases hrk with hrk | hrk
+    · right
+      exact ihr cur st fin env h hr hc hfin (Ext.trans hB.2 hx) henv r1 hr1 rk hrk
+    · left
+      exact ihi cur _ fin env hwA.1 hA.1 (by omega) hfin hx henv r2 hr2 rk hrk
+  | ctor c =>
+    rename_i cur st fin env _ _ _ _ _ _ rs hrs rk hrk
+    simp only [kid] at hrs
+    have : rs = [] := by simpa using hrs
+    rw [this] at hrk; cases hrk
+  | mw m =>
+    rename_i cur st fin env _ _ _ _ _ _ rs hrs rk hrk
+    simp only [kid] at hrs
+    have : rs = [] := by simpa using hrs
+    rw [this] at hrk; cases hrk
+  | route r =>
+    rename_i cur st fin env _ _ _ _ _ _ rs hrs rk hrk
+    simp only [kid] at hrs
+    have : rs = [] := by simpa using hrs
+    rw [this] at hrk; cases hrk
+  | other =>
+    rename_i cur st fin env _ _ _ _ _ _ rs hrs rk hrk
+    simp only [kid] at hrs
+    have : rs = [] := by simpa using hrs
+    rw [this] at hrk; cases hrk
+  | nest b ih =>
+    rename_i cur st fin env h hr hc hfin hx henv rs hrs rk hrk
+    simp only [kid] at hrs hx
+    obtain ⟨hw2, hr2, hlt, hx2, hlook, hpar, _, ⟨rs2, hrs2, hmap2, hroutes2⟩⟩ := nest_walk b cur st h hr hc ty
+    -- names for the two intermediate states
+    generalize hst2 : walkOwn b st.next { st.addScope cur with nested := st.nested ++ [(st.next, cur)] } = st2 at *
+    have h3 := kids_facts b st.next st2 hw2 hr2 hlt
+    obtain ⟨rs3, hrs3⟩ := h3.2.mws
+    have hsplit : rs = rs2 ++ rs3 := by
+      rw [hrs3, hrs2, List.append_assoc] at hrs
+      exact (List.append_cancel_left hrs).symm
+    have hx2fin : Ext st2 fin := Ext.trans h3.2 hx
+    have hxfin : Ext st fin := Ext.trans hx2 hx2fin
+    -- what the nested blueprint's scope resolves the type to
+    have hcur : getF st2 cur ty = env := by
+      rw [← henv, getF_frozen hxfin h hfin cur ty hc, getF_frozen hx2 h hw2 cur ty hc]
+    have hsc : getF fin st.next ty = (ownLast b ty).or env := by
+      rw [getF_frozen hx2fin hw2 hfin st.next ty hlt]
+      cases hl : ownLast b ty with
+      | some c =>
+        rw [hl] at hlook
+        simpa using getF_own st2 st.next ty c hlook
+      | none =>
+        rw [hl] at hlook
+        rw [getF_parent st2 hw2 st.next cur ty hlt hpar hlook, hcur]
+        simp
+    rw [hsplit] at hrk
+    simp only [nestedItemM, List.mem_append] at hrk ⊢
     rcases hrk with hrk | hrk
     · left
       obtain ⟨hk1, hk2, hk3⟩ := hroutes2 rk hrk
